@@ -2402,7 +2402,7 @@ func compileRateLimitConfig(field string, in *RateLimitBlock, res *ValidationRes
 		return out
 	}
 	rps, err := strconv.ParseFloat(rawRPS, 64)
-	if err != nil || rps <= 0 {
+	if err != nil || rps <= 0 || math.IsNaN(rps) || math.IsInf(rps, 0) {
 		res.Errors = append(res.Errors, fmt.Sprintf("%s.rps must be a positive number", field))
 		out.Enabled = false
 		return out
